@@ -523,6 +523,80 @@ def r12g(ctx, rep, rule="R12g"):
                                      "grows with the work done", [fn.span])
 
 
+GLOBENV = "marwood::vm::environment::GlobalEnvironment"
+
+
+def _slot_definers(facts):
+    """functions that can change the value of an existing global slot: they take a mutable borrow of a `slots` field of a
+    GlobalEnvironment and use it for anything but Vec::push(VCell::undefined()) (reserving a fresh, unbound slot)"""
+    out = {}
+    for p, f in facts.fns.items():
+        if f.crate != "marwood" or f.impl_trait in DERIVE_TRAITS or "::tests::" in p:
+            continue
+        for bb, j, st in f.stmts():
+            rv = st["rv"]
+            if rv["k"] != "ref" or not rv.get("mut"):
+                continue
+            pl = rv["place"]
+            fl = [e["n"] for e in pl["p"] if isinstance(e, dict) and "f" in e]
+            if not fl or fl[-1] != "slots":
+                continue
+            base_ty = f.locals[pl["l"]]
+            if len(fl) == 1 and GLOBENV not in base_ty:
+                continue
+            if len(fl) >= 2 and fl[-2] != "globenv":
+                continue
+            # how is the borrow used?
+            dest = st["lhs"]["l"]
+            reserve_only = True
+            used = False
+            for b2, t in f.calls():
+                for i, a in enumerate(t["args"]):
+                    ap = op_place(a)
+                    if ap is not None and ap["l"] == dest:
+                        used = True
+                        c = callee(t) or ""
+                        if c.startswith("std::vec::Vec") and c.endswith("::push") and i == 0 and len(t["args"]) == 2:
+                            o = f.origin(t["args"][1])
+                            fresh = (o[0] == "call" and (callee(o[1]) or "").endswith("VCell::undefined")) or \
+                                    (o[0] == "rv" and o[1]["rv"]["k"] == "agg" and o[1]["rv"].get("variant") == "Undefined")
+                            if not fresh:
+                                reserve_only = False
+                        else:
+                            reserve_only = False
+            if not used or not reserve_only:
+                out[p] = st["loc"]
+    return out
+
+
+def r07f(ctx, rep, rule="R07f"):
+    facts, cg = ctx["facts"], ctx["cg"]
+    rep.rule(rule, "compiling defines nothing: a top-level form is compiled as a whole before any of it runs, so an effect the "
+             "compiler performs itself survives a form that later fails (or never reaches the defining sub-form). In the "
+             "call graph no function reachable from compile_runnable changes the value of a global slot: the only mutable "
+             "use of GlobalEnvironment.slots on the compile side is reserving a fresh slot with Vec::push(VCell::undefined()) "
+             "(get_binding); values are stored by the MOV instruction at run time.")
+    root = COMPILE + "compile_runnable"
+    if need(rep, rule, facts, root) is None:
+        return
+    definers = _slot_definers(facts)
+    if not definers:
+        rep.anchor_lost(rule, "a function storing into GlobalEnvironment.slots (put_slot)")
+        return
+    reach = cg.reachable_from([root])
+    rep.floor(rule, "functions reachable from compile_runnable", len(reach), 40)
+    bad = sorted(d for d in definers if d in reach)
+    for d in bad:
+        path = cg.path(root, d) or [root, d]
+        rep.fail(rule, "%s|compile-reaches|%s" % (rule, short_path(d)),
+                 "the compiler can store a value into a global slot before the form runs: %s. A definition made this way takes "
+                 "effect even when the enclosing form fails first (or is rejected by a later compile error)" % (
+                     " -> ".join(short_path(x) for x in path)), [definers[d]])
+    if not bad:
+        rep.ok(rule, "%s|compile-side-effects" % rule, "none of the %d slot-storing functions (%s) is reachable from compile_runnable "
+               "(%d functions)" % (len(definers), ", ".join(sorted(short_path(d) for d in definers)), len(reach)))
+
+
 def r07e(ctx, rep, rule="R07e"):
     facts = ctx["facts"]
     rep.rule(rule, "a failing read or compilation reports no stale trace: in Vm::eval_text and Vm::prepare_eval an assignment "
